@@ -13,7 +13,12 @@ MANIFEST = dict(
          "arbitrary spans) and an independent oracle, (b) the property itself checked on erroneous programs of every class "
          "(lexical, syntactic, interpolation, resolution, type, SQL generation) decorated with ASCII / 2- / 3- / 4-byte text and line "
          "breaks, single- and multi-file, including the ASCII-twin oracle (the reported character span must not depend on the byte "
-         "width of earlier text).",
+         "width of earlier text), (c) the CONTENT oracle: when the message names a piece of source text (unexpected token / found x, Unknown "
+         "name, duplicate declaration, found <literal / path>, end of input ...) the span's slice of the ORIGINAL file holds it, and (d) the "
+         "trivia metamorphic oracle (the text the front end lexes is the text the spans index): inserting ignored trivia (blanks, tabs, empty "
+         "lines, comments incl. multi-byte, CR / CRLF, LF->CRLF) before an error moves its span by exactly the inserted length, after it "
+         "nothing moves, and a character the lexer rejects (BOM, ZWSP, NBSP, NUL, FF, U+2028, U+3000 ...) inserted where a token may start is "
+         "itself the only error of that file, at its own position - for every file of single- and multi-file trees and every error stage.",
     note="which token range chumsky reports for a rejected program is not modelled (only the span arithmetic applied to it is); "
          "that lexer errors carry boundary-aligned byte spans is asserted on every lexer error of the run. Known findings: non-lexer "
          "spans are byte offsets (panic or shifted location after non-ASCII text), interpolation spans ignore extra quotes and escapes, "
@@ -297,13 +302,17 @@ def build_cases(ctx):
 INTERP_RE = re.compile(r'but found ("(.)"|end of input)$', re.S)
 
 
-def classify(kind, text, span_end_bytes, lexes, reason, src_known):
-    """finding id for a failure: call site + predicate on the witness"""
+def classify(kind, text, span_end_bytes, lexes, reason, src_known, byte_reading=False):
+    """finding id for a failure: call site + predicate on the witness.
+    byte_reading (kinds `content` / `shift` only): the reported span, read as BYTE offsets, is exactly right (it holds the named text /
+    it is the byte image of the expected character span) - the signature of the byte-offset defect and of nothing else."""
     if not src_known:
         return "span-source-id-not-in-tree"
     b = text.encode("utf-8")
     nonascii_before = any(x >= 0x80 for x in b[:span_end_bytes]) if span_end_bytes is not None else any(x >= 0x80 for x in b)
     if lexes and nonascii_before and kind in ("panic-bounds", "twin", "found-text", "bounds"):
+        return "nonlexer-span-bytes-as-chars"
+    if lexes and nonascii_before and kind in ("content", "shift") and byte_reading:
         return "nonlexer-span-bytes-as-chars"
     if kind == "found-text" and reason and INTERP_RE.search(reason):
         head = text.encode("utf-8")[:span_end_bytes].decode("utf-8", "ignore") if span_end_bytes is not None else text
@@ -312,6 +321,116 @@ def classify(kind, text, span_end_bytes, lexes, reason, src_known):
         if re.search(r"[sf][\"'][^\"']*\\[^\"']*$", head):
             return "interp-span-escape"
     return None
+
+
+# ---------------------------------------------------------------------------------------------
+# CONTENT oracle: the reported position must HOLD the text the message talks about
+# ---------------------------------------------------------------------------------------------
+def named_text(reason, stage):
+    """(relation, X) when `reason` names a piece of source text, else None. Relations:
+       eq        the span's text is X                      eq-bt    ... up to backticks
+       token     X is the Display of a token (keyword / new line / punctuation / identifier)
+       lastseg   X is a resolved path (this.t.a): its last segment is the last segment of the span's text
+       literal   X is a literal as printed (quotes may differ)
+       word      the span's text contains X as a word      suffix   ... contains a dotted suffix of X
+       lex-eoi   empty span at the end of the file         parse-eoi  nothing but trivia after the span end"""
+    r = reason or ""
+    if r == "unexpected end of input":
+        return ("lex-eoi", "")
+    m = re.match(r"^unexpected '(.*)'$", r, re.S)
+    if m and stage == "parse":
+        return ("eq", m.group(1))
+    if stage == "parse":
+        if re.match(r"^Expected .* but didn't find anything before the end\.$", r, re.S):
+            return ("parse-eoi", "")
+        m = INTERP_RE.search(r)
+        if m:
+            return ("eq", m.group(2) or "")
+        m = re.match(r"^(?:unexpected|expected .*?,? but found) (.+)$", r, re.S)
+        if m:
+            return ("token", m.group(1))
+        return None
+    m = re.match(r"^Unknown (?:name|relation) (.+)$", r, re.S)
+    if m:
+        return ("eq-bt", m.group(1))
+    m = re.match(r"^duplicate declarations of (\S+)$", r)
+    if m:
+        return ("word", m.group(1))
+    m = re.match(r"^`([\w.]+)` only supports", r)
+    if m:
+        return ("suffix", m.group(1))
+    m = re.match(r"^unexpected `.*internal ([\w.]+)`$", r, re.S)
+    if m:
+        return ("lastseg", m.group(1))
+    m = re.search(r"but found (.+)$", r, re.S)
+    if m and not m.group(1).startswith("type "):
+        x = m.group(1).strip("`")
+        if x.startswith("internal "):
+            return None     # a function of std, not user text
+        if re.match(r"^-?\d+(\.\d+)?$", x) or x[:1] in "\"'":
+            return ("literal", x)
+        if re.match(r"^[A-Za-z_$][\w.$]*$", x):
+            return ("lastseg", x)
+        return ("word", x)
+    return None
+
+
+def content_holds(rel, x, text, s, e):
+    """does the character span s..e of text hold what the message names?"""
+    if not (0 <= s <= e <= len(text)):
+        return False
+    under = text[s:e]
+    if rel == "lex-eoi":
+        return s == e == len(text)
+    if rel == "parse-eoi":
+        return e > 0 and re.sub(r"#[^\n]*", "", text[e:]).strip() == ""
+    if rel == "eq":
+        return under == x
+    if rel == "eq-bt":
+        return under.replace("`", "") == x.replace("`", "")
+    if rel == "token":
+        if under == x:
+            return True
+        if x == "new line":
+            return under in ("\n", "\r\n", "\r")
+        if x.startswith("keyword "):
+            return under == x[8:]
+        if re.match(r"^([^\w\s\"'#]+|[A-Za-z_][\w.]*)$", x):
+            return False
+        return None     # literals, comments, interpolations are printed in a normal form: not judged
+    if rel == "lastseg":
+        return re.sub(r"[()`\s]", "", under).split(".")[-1] == x.split(".")[-1]
+    if rel == "literal":
+        return under.strip("\"'") == x.strip("\"'")
+    if rel == "word":
+        return re.search(r"(?<![\w.])" + re.escape(x) + r"(?![\w])", under) is not None
+    if rel == "suffix":
+        parts = x.split(".")
+        return any(".".join(parts[i:]) in under for i in range(len(parts)))
+    return None
+
+
+def byte_reading(text, s, e):
+    """the character span that byte offsets s..e denote (None when not on character boundaries)"""
+    b = text.encode("utf-8")
+    if not (0 <= s <= e <= len(b)):
+        return None
+    try:
+        return len(b[:s].decode("utf-8")), len(b[:e].decode("utf-8"))
+    except UnicodeDecodeError:
+        return None
+
+
+def content_check(reason, stage, text, sp):
+    """None = the message names no text / not judged; else (ok, relation, X, ok_when_read_as_bytes)"""
+    nt = named_text(reason, stage)
+    if nt is None:
+        return None
+    ok = content_holds(nt[0], nt[1], text, sp["start"], sp["end"])
+    if ok is None:
+        return None
+    br = byte_reading(text, sp["start"], sp["end"])
+    return ok, nt[0], nt[1], bool(br and content_holds(nt[0], nt[1], text, br[0], br[1]))
 
 
 def suite_errors(ctx):
@@ -326,8 +445,8 @@ def suite_errors(ctx):
     tok_reqs, tok_meta = [], []
     stats = {"failures": 0, "model_bad": 0}
 
-    def fail(kind, c, text, e, what, span_end_bytes, lexes, src_known=True, extra=None):
-        fid = classify(kind, text, span_end_bytes, lexes, (e or {}).get("reason"), src_known)
+    def fail(kind, c, text, e, what, span_end_bytes, lexes, src_known=True, extra=None, byte_reading=False):
+        fid = classify(kind, text, span_end_bytes, lexes, (e or {}).get("reason"), src_known, byte_reading)
         stats["failures"] += 1
         ctx.count(f"B:failure {kind} -> {fid or 'UNCLASSIFIED'}")
         ctx.oracle_failure(fid, what, {"op": "err_tree", "files": c["files"], "single": len(c["files"]) == 1, "class": c["cls"], "tag": c["tag"],
@@ -427,6 +546,16 @@ def suite_errors(ctx):
                 under = text[sp["start"]:sp["end"]]
                 if under != found:
                     fail("found-text", c, text, e, f"reason says found {found!r} but the span covers {under!r}", sp["end"], lexes)
+            else:
+                # P9 CONTENT: every other message that names a piece of source text - the span must hold it
+                cc = content_check(e["reason"], a["stage"], text, sp)
+                if cc is None:
+                    ctx.count("B:content oracle: message names no text")
+                else:
+                    ctx.count(f"B:content oracle applied ({cc[1]})")
+                    if not cc[0]:
+                        fail("content", c, text, e, f"reason names {cc[2]!r} ({cc[1]}) but the span {sp['start']}..{sp['end']} covers {text[sp['start']:sp['end']]!r}",
+                             sp["end"], lexes, byte_reading=cc[3])
             # ties to the mirrors
             if is_lexer_err and ml:
                 bs, be = len(text[:sp["start"]].encode("utf-8")), len(text[:sp["end"]].encode("utf-8"))
@@ -493,6 +622,329 @@ def suite_errors(ctx):
     return len(cases)
 
 
+# ---------------------------------------------------------------------------------------------
+# suite C: the text the front end lexes is the text the spans index (trivia metamorphic + content)
+# ---------------------------------------------------------------------------------------------
+# `¦` = a top-level pipe, rendered ` | ` (one line) or as a line break (one transform per line)
+TRIV_BASES = [
+    ("lexical", "from t ¦ select ^"),
+    ("lexical", "from t ¦ filter a == 'abc"),
+    ("lexical", "from t ¦ select a ? b"),
+    ("lexical-eoi", "from t ¦ select `name"),
+    ("lexical-eoi", "from t ¦ select f\"{a"),
+    ("syntactic", "from t ¦ select )"),
+    ("syntactic", "from t ¦ select {a,, b}"),
+    ("syntactic", "from t ¦ derive x = = 2"),
+    ("syntactic", "from t ¦ select {x = a | as}"),
+    ("syntactic", "from t ¦ sort (-)"),
+    ("syntactic", "from t ¦ select {a let}"),
+    ("syntactic", "from t ¦ select {a = 1 ?? }"),
+    ("syntactic", "let = 3"),
+    ("syntactic", "let f = = 2\nfrom t ¦ take 1"),
+    ("syntactic", "let x = 1\nlet y = \nfrom t ¦ take 1"),
+    ("syntactic-eoi", "from t ¦ select {"),
+    ("syntactic-eoi", "from t ¦ derive x = 1 + "),
+    ("interp", "from t ¦ select s\"{a b}\""),
+    ("interp", "from t ¦ select f\"{}\""),
+    ("resolution", "from t ¦ select {a} ¦ filter zz > 1"),
+    ("resolution", "from t ¦ foo bar"),
+    ("resolution", "from t ¦ select std.nope"),
+    ("resolution", "from t ¦ join s (==id) ¦ select {q.x}"),
+    ("resolution", "from t ¦ join s (==id) ¦ select id"),
+    ("resolution", "from t ¦ derive {x = s.*}"),
+    ("resolution", "from t ¦ select (f 1 2)"),
+    ("resolution", "from t ¦ group {a} (aggregate {sum b} | zz)"),
+    ("resolution", "let x = 1\nlet x = 2\nfrom t ¦ take 1"),
+    ("resolution", "module m {let a = 1}\nfrom t ¦ select m.b"),
+    ("type", "from t ¦ take \"x\""),
+    ("type", "from t ¦ filter"),
+    ("type", "from t ¦ sort {a} ¦ take 1.5"),
+    ("type", "from t ¦ aggregate {sum}"),
+    ("type", "from t ¦ take 1..0"),
+    ("type", "from t ¦ take 5 ¦ take (a)"),
+    ("type", "from t ¦ window rows:a..2 (derive {s = sum b})"),
+    ("type", "from t ¦ window rolling:x (derive {s = sum b})"),
+    ("type", "from t ¦ select {a = s\"x\"} ¦ from_text 3"),
+    ("type", "from t ¦ loop 3"),
+    ("type", "from t ¦ filter [1,2]"),
+    ("type", "from t ¦ derive {x = (a | as)}"),
+    ("type-std-span", "from t ¦ derive {x = case [a => 1]} ¦ take -1"),
+    ("lowering", "from t ¦ derive {c = case [a == 1 => {1}]}"),
+    ("lowering", "from t ¦ aggregate {x = min {a, b}}"),
+    ("sql", "from t ¦ select {d = (date.to_text c d)}"),
+    ("sql", "from t ¦ derive {x = (a | date.to_text \"%q\")}"),
+    ("sql", "prql target:sql.mssql\nfrom t ¦ derive {x = (a | date.to_text \"%q\")}"),
+]
+# multi-file trees: (class, [(path, template)], file holding the error)
+TRIV_TREES = [
+    ("lexical", [("Main.prql", "from t ¦ select {a}"), ("lib.prql", "let z = 1\nlet f = x -> x + ^"), ("zeta.prql", "let z = 1")], "lib.prql"),
+    ("syntactic", [("Main.prql", "from t ¦ select {a}"), ("lib.prql", "let z = 1\nlet f = x -> x + )"), ("zeta.prql", "let z = 1")], "lib.prql"),
+    ("interp", [("Main.prql", "from t ¦ select {a}"), ("lib.prql", "let f = x -> s\"{x y}\"")], "lib.prql"),
+    ("resolution", [("Main.prql", "from t ¦ select {a}"), ("lib.prql", "let z = 1\nlet g = (from t | select {a} | filter zz > 1)"), ("zeta.prql", "let z = 1")], "lib.prql"),
+    ("type", [("Main.prql", "from t ¦ select {a}"), ("lib.prql", "let g = (from t | take \"x\")")], "lib.prql"),
+    ("sql", [("Main.prql", "from lib.g ¦ take 3"), ("lib.prql", "let z = 1\nlet g = (from t | select {d = (date.to_text c d)})")], "lib.prql"),
+    ("resolution", [("Main.prql", "from t ¦ select {a} ¦ filter zz > 1"), ("lib.prql", "let f = x -> x + 1\nlet g = 2")], "Main.prql"),
+    ("resolution", [("lib.prql", "let f = x -> x + 1\nlet g = 2"), ("Main.prql", "from t ¦ select {lib.nope}")], "Main.prql"),
+    ("syntactic", [("lib.prql", "let f = x -> x + 1"), ("Main.prql", "from t ¦ select )")], "Main.prql"),
+    ("lexical", [("Main.prql", "from t ¦ select ^"), ("lib.prql", "let f = x -> x + 1")], "Main.prql"),
+    ("type", [("Main.prql", "from t ¦ sort {a} ¦ take 1.5"), ("lib.prql", "let f = x -> x + 1")], "Main.prql"),
+    ("sql", [("Main.prql", "from t ¦ select {d = (date.to_text c d)}"), ("lib.prql", "let f = x -> x + 1")], "Main.prql"),
+]
+TRIV_INLINE = [" ", "\t", "  \t "]
+TRIV_LINE = ["\n", "\r\n", "# c\n", "#\r\n", "   \n", "\t# c\r\n", "\n\n\n", "\r", "# \xe9\n", "# \u20ac\U0001F600\r\n", "# e\u0301\n"]
+TRIV_END = ["  ", "\n", "\n# c\n", "\r\n\t"]
+# characters the lexer rejects wherever a token may start: the (only) error is about THAT character, at its position
+TRIV_REJECTED = ["\ufeff", "\u200b", "\xa0", "\x00", "\x0c", "\u2028", "\u3000"]
+TRIV_REJECTED_MORE = ["\x0b", "\x85", "\u2003", "\u2029", "\x7f", "\xad", "\u2060"]
+
+
+def render_tpl(tpl, style):
+    """-> (text, inline insertion points, line insertion points); insertion points are token boundaries outside any token"""
+    out, inline = "", [0]
+    for i, part in enumerate(tpl.split(" ¦ ")):
+        if i:
+            out += " | " if style == 0 else "\n"
+            inline.append(len(out))
+        out += part
+    line = [0] + [i + 1 for i, ch in enumerate(out) if ch == "\n" and i + 1 < len(out)]
+    inline = sorted(set(inline + line))
+    return out, inline, line
+
+
+def shift_span(sp, edits):
+    """image of the character span under insertions [(pos, text)] (no edit lies inside the span; an edit AT an empty span is not generated)"""
+    s, e = sp
+    return (s + sum(len(t) for p, t in edits if p <= s), e + sum(len(t) for p, t in edits if p < e or (p <= s and s == e)))
+
+
+def apply_edits(text, edits):
+    out, last = "", 0
+    for p, t in sorted(edits, key=lambda x: x[0]):
+        out += text[last:p] + t
+        last = p
+    return out + text[last:]
+
+
+def suite_trivia(ctx):
+    thorough = ctx.tier == "thorough"
+    rng = ctx.rng
+    # ---- bases
+    bases = []   # dict(cls, files=[[path, text]], inline={path: [...]}, line={path: [...]}, single, errfile)
+    for cls, tpl in TRIV_BASES:
+        for style in ((0, 1) if " ¦ " in tpl else (0,)):
+            text, inl, lin = render_tpl(tpl, style)
+            bases.append(dict(cls=cls, files=[["", text]], inline={"": inl}, line={"": lin}, single=True, errfile="", style=style))
+    for cls, fl, errfile in TRIV_TREES:
+        for style in (0, 1):
+            files, inline, line = [], {}, {}
+            for p, tpl in fl:
+                text, inl, lin = render_tpl(tpl, style)
+                files.append([p, text]); inline[p] = inl; line[p] = lin
+            bases.append(dict(cls=cls, files=files, inline=inline, line=line, single=False, errfile=errfile, style=style))
+    bans = vh_batch([{"op": "err_tree", "files": b["files"], "single": b["single"]} for b in bases], shards=vlib.NCPU)
+    stats = {"failures": 0, "bases": 0, "variants": 0, "unlisted": 0}
+
+    def fail(kind, b, files, path, e, what, span_end, lexes, extra=None, byte_reading=False, src_known=True):
+        text = dict((p, s) for p, s in files).get(path, "")
+        fid = classify(kind, text, span_end, lexes, (e or {}).get("reason"), src_known, byte_reading)
+        stats["failures"] += 1
+        if not (fid and fid in ctx.known):
+            stats["unlisted"] += 1
+        ctx.count(f"C:failure {kind} -> {fid or 'UNCLASSIFIED'}")
+        ctx.oracle_failure(fid, what, {"op": "err_tree", "files": files, "single": b["single"], "class": b["cls"], "check": kind,
+                                       "error": {k: (e or {}).get(k) for k in ("reason", "span", "location", "path")}, **(extra or {})})
+
+    def judge_errors(b, files, a, lex_ok):
+        """structural + content oracle on every error of one answer; -> list of (reason, path, start, end) or None (panic / no errors)"""
+        fmap = dict((p, s) for p, s in files)
+        if "crash" in a or "garbled" in a:
+            stats["unlisted"] += 1
+            ctx.oracle_failure(None, "process died while compiling", {"op": "err_tree", "files": files, "single": b["single"], "answer": a})
+            return None
+        if "panic" in a:
+            m = re.search(r"span Some\((\d+):(\d+)-(\d+)\) is out of bounds of the source \(len = (\d+)\)", a["panic"])
+            if m:
+                sid, s0, s1, ln = map(int, m.groups())
+                paths = [p for p, _ in files]
+                path = paths[sid - 1] if 0 < sid <= len(paths) else None
+                fail("panic-bounds", b, files, path, None, f"compile panics instead of reporting the error: {a['panic']} ({a.get('at')})", s1,
+                     lex_ok.get(path, True), extra={"panic": a["panic"], "at": a.get("at")})
+            else:
+                stats["unlisted"] += 1
+                ctx.oracle_failure(None, f"compile panics: {a['panic']}", {"op": "err_tree", "files": files, "single": b["single"], "panic": a["panic"], "at": a.get("at")})
+            return None
+        if "errors" not in a:
+            return []
+        out = []
+        for e in a["errors"]:
+            sp, path = e.get("span"), e.get("path")
+            if not sp:
+                out.append((e["reason"], None, None, None)); continue
+            if path is None or path not in fmap:
+                fail("foreign-source", b, files, "", e, f"span {sp} names source id {sp['src']} which is no file of the tree", None, True, src_known=False)
+                out.append((e["reason"], None, sp["start"], sp["end"])); continue
+            out.append((e["reason"], path, sp["start"], sp["end"]))
+            text = fmap[path]; lexes = lex_ok.get(path, True)
+            if not (sp["start"] <= sp["end"] <= len(text)):
+                fail("bounds", b, files, path, e, f"span {sp['start']}..{sp['end']} not ordered inside the {len(text)}-character file", sp["end"], lexes)
+                continue
+            want = {"start": line_col(text, sp["start"]), "end": line_col(text, sp["end"])}
+            if e.get("location") != want:
+                fail("location", b, files, path, e, f"location {e.get('location')} is not the position {want} of the span", sp["end"], lexes)
+            q = quoted_lines(e.get("display")); l0 = want["start"][0]
+            # (ASCII control characters of the source - NUL, DEL ... - are not printed by the renderer: compared up to those)
+            vis = lambda z: "".join(ch for ch in nows(z) if ch >= " " and ch != "\x7f")
+            if (l0 + 1) not in q or vis(q[l0 + 1]) != vis(line_text(text, l0)):
+                fail("display", b, files, path, e, f"display does not quote line {l0 + 1} containing the span", sp["end"], lexes, extra={"display": e.get("display")})
+            cc = content_check(e["reason"], a["stage"], text, sp)
+            if cc is None:
+                ctx.count("C:content oracle: message names no text")
+            else:
+                ctx.count(f"C:content oracle applied ({cc[1]})")
+                if not cc[0]:
+                    fail("content", b, files, path, e, f"reason names {cc[2]!r} ({cc[1]}) but the span {sp['start']}..{sp['end']} covers {text[sp['start']:sp['end']]!r}",
+                         sp["end"], lexes, byte_reading=cc[3])
+        return out
+
+    # ---- base answers: must be errors, on ASCII text, satisfying the oracles themselves
+    variants = []   # (base index, files, kind, edited path, edits, expectation)
+    for bi, (b, a) in enumerate(zip(bases, bans)):
+        lex_ok = dict((p, ok) for p, ok in (a.get("lex_ok") or []))
+        b["lex_ok"] = lex_ok
+        errs = judge_errors(b, b["files"], a, lex_ok)
+        b["errs"] = errs
+        ctx.case(("triv-base", json.dumps(b["files"])), nontrivial=bool(errs))
+        if not errs:
+            ctx.count("C:base without error (not used)")
+            continue
+        stats["bases"] += 1
+        ctx.count(f"C:base class {b['cls']} stage {a['stage']}")
+        for path, text in b["files"]:
+            mine = [x for x in errs if x[1] == path]
+            first = min([x[2] for x in mine], default=None)
+            is_eoi = lambda x: named_text(x[0], a["stage"]) is not None and named_text(x[0], a["stage"])[0] == "parse-eoi"
+            def allowed(p):
+                return all(is_eoi(x) or p < x[2] or (p == x[2] and x[2] < x[3]) for x in mine)
+            inl = [p for p in b["inline"][path] if allowed(p)]
+            lin = [p for p in b["line"][path] if allowed(p)]
+            # the start of the offending text itself, when it stands after a blank
+            if first is not None and first > 0 and text[first - 1] == " " and allowed(first) and first not in inl:
+                inl.append(first)
+            for t in TRIV_INLINE:
+                for p in inl:
+                    variants.append((bi, path, "ignored", [(p, t)]))
+            for t in TRIV_LINE:
+                for p in lin:
+                    variants.append((bi, path, "ignored", [(p, t)]))
+            for t in TRIV_REJECTED + (TRIV_REJECTED_MORE if thorough else []):
+                for p in inl:
+                    variants.append((bi, path, "rejected", [(p, t)]))
+            # after the error: nothing moves (not for errors AT the end of the input)
+            if all(not is_eoi(x) and not (x[2] == x[3] == len(text)) for x in mine):
+                for t in TRIV_END:
+                    variants.append((bi, path, "ignored", [(len(text), t)]))
+            # LF -> CRLF everywhere
+            nl = [i for i, ch in enumerate(text) if ch == "\n"]
+            if nl:
+                variants.append((bi, path, "ignored", [(i, "\r") for i in nl]))
+            b.setdefault("pos", {})[path] = (inl, lin)
+    # random compositions of ignored trivia over all files of a base
+    usable = [bi for bi, b in enumerate(bases) if b.get("errs")]
+    for _ in range(3000 if thorough else 500):
+        bi = rng.choice(usable); b = bases[bi]
+        path = rng.choice([p for p, _ in b["files"]])
+        inl, lin = b["pos"][path]
+        edits, used = [], set()
+        for _ in range(rng.randint(2, 4)):
+            if lin and rng.random() < 0.5:
+                p, t = rng.choice(lin), "".join(rng.choice(TRIV_LINE[:8]) for _ in range(rng.randint(1, 2)))
+            elif inl:
+                p, t = rng.choice(inl), rng.choice(TRIV_INLINE)
+            else:
+                continue
+            if p in used:
+                continue
+            used.add(p); edits.append((p, t))
+        if edits:
+            variants.append((bi, path, "ignored", sorted(edits)))
+    reqs, vfiles = [], []
+    for bi, path, kind, edits in variants:
+        b = bases[bi]
+        files = [[p, apply_edits(s, edits) if p == path else s] for p, s in b["files"]]
+        vfiles.append(files)
+        reqs.append({"op": "err_tree", "files": files, "single": b["single"]})
+    vans = vh_batch(reqs, shards=vlib.NCPU)
+    for (bi, path, kind, edits), files, a in zip(variants, vfiles, vans):
+        b = bases[bi]
+        stats["variants"] += 1
+        ins = "".join(t for _, t in edits)
+        ctx.case(("triv", json.dumps(files)), nontrivial=True)
+        ctx.count(f"C:variant {kind}" + (" multi-byte" if any(ord(ch) > 127 for ch in ins) and kind == "ignored" else "") + ("" if b["single"] else " (tree)"))
+        # an ignored insertion does not change whether a file lexes; a rejected one is judged as a lexer error
+        lex_ok = dict(b["lex_ok"])
+        if kind == "rejected":
+            lex_ok[path] = False
+        got = judge_errors(b, files, a, lex_ok)
+        if got is None:
+            continue
+        newtext = dict((p, s) for p, s in files)[path]
+        stage = a.get("stage")
+        if kind == "rejected":
+            p, t = edits[0]
+            want = (f"unexpected '{t}'", path, p, p + 1)
+            mine = [x for x in got if x[1] == path]
+            others = [x for x in got if x[1] != path]
+            if mine != [want] or any(x not in b["errs"] for x in others):
+                stats["failures"] += 1; stats["unlisted"] += 1
+                ctx.count("C:failure rejected-trivia -> UNCLASSIFIED")
+                ctx.oracle_failure(None, f"U+{ord(t):04X} inserted at offset {p} of {path!r} (where a token may start) is rejected by the lexer: the errors of that file "
+                                   f"must be exactly {want}, got {got} (errors without the insertion: {b['errs']})",
+                                   {"op": "err_tree", "files": files, "single": b["single"], "class": b["cls"], "check": "rejected-trivia", "inserted": [p, t],
+                                    "expected": want, "observed": got, "base": b["files"], "base_errors": b["errs"]})
+            continue
+        # ignored trivia: same errors, spans of the edited file moved by exactly the inserted length
+        want = []
+        for x in b["errs"]:
+            if x[1] != path or x[2] is None:
+                want.append(x); continue
+            nt = named_text(x[0], "parse")
+            if nt and nt[0] == "parse-eoi":
+                want.append((x[0], x[1], None, None)); continue      # whole-input span: judged by the content oracle
+            if any(x[2] < p < x[3] or (p == x[2] and t == "\r") for p, t in edits):
+                want.append((x[0], x[1], None, None)); ctx.count("C:span with an edit inside (not compared)"); continue
+            s2, e2 = shift_span((x[2], x[3]), edits)
+            want.append((x[0], x[1], s2, e2))
+        def blur(x, w):
+            return (x[0], x[1], None, None) if w[2] is None and w[1] is not None else x
+        ok = len(got) == len(want) and sorted(map(str, [blur(g, w) for g, w in zip(sorted(got, key=str), sorted(want, key=str))])) == sorted(map(str, want))
+        if not ok:
+            # alignment by (reason, path) for the classification
+            br_ok, span_end, e0 = False, None, None
+            if len(got) == len(want):
+                br_ok = True
+                for g, w in zip(sorted(got, key=lambda x: (x[0], str(x[1]))), sorted(want, key=lambda x: (x[0], str(x[1])))):
+                    if g[:2] != w[:2]:
+                        br_ok = False; break
+                    if w[2] is None or g[2:] == w[2:]:
+                        continue
+                    tb = len(newtext[:w[2]].encode("utf-8")), len(newtext[:w[3]].encode("utf-8"))
+                    if g[1] != path or (g[2], g[3]) != tb:
+                        br_ok = False; break
+                    span_end = max(span_end or 0, g[3])
+                    e0 = {"reason": g[0], "path": g[1], "span": {"start": g[2], "end": g[3]}}
+            fail("shift", b, files, path, e0, f"inserting {ins!r} ({len(ins)} characters of ignored trivia, edits {edits}) into {path!r} must move the spans of that file "
+                 f"by exactly the inserted length and change nothing else: expected {want}, got {got}", span_end, b["lex_ok"].get(path, True),
+                 extra={"edits": edits, "expected": want, "observed": got, "base": b["files"], "base_errors": b["errs"]}, byte_reading=br_ok and span_end is not None)
+    ctx.count("C:bases", stats["bases"]); ctx.count("C:variants", stats["variants"])
+    ctx.sample({"suite": "trivia", "base": "from t | select {a} | filter zz > 1", "variant": "\\ufefffrom t | ...", "expected": "exactly: unexpected '\\ufeff' at 0..1",
+                "variant2": "# c\\nfrom t | ...", "expected2": "Unknown name `zz` at 33..35 (29..31 + 4)"})
+    ctx.obligation("property on the implementation (trivia): inserting ignored trivia (blanks, tabs, empty lines, comments incl. multi-byte, CR / CRLF) before an error moves "
+                   "its span by exactly the inserted length, after it moves nothing; a rejected character (BOM, ZWSP, NBSP, NUL, FF, U+2028, U+3000) is itself "
+                   "the error at its own position; the span holds the text the message names; every failure is a listed finding", stats["unlisted"] == 0,
+                   f"{stats['bases']} erroneous bases (single files and trees), {stats['variants']} variants, {stats['failures']} failures, {stats['unlisted']} not listed")
+    return stats["variants"]
+
+
 def run(ctx):
     br = vlib.standard_proof_obligations(ctx, ["PrqlModel.Props.C13"], [],
         required_theorems=["lexer_error_span_ok", "parser_span_ok_counterexample", "parser_span_ok_partial", "interp_span_ok_partial",
@@ -504,13 +956,17 @@ def run(ctx):
                 "multi-byte character. suite B: 36 erroneous cores (lexical, syntactic, end-of-input, interpolation incl. multi-quote / escapes / "
                 "non-ASCII, resolution, type, SQL-generation with and without span) x prefixes (comment, CRLF, string, blank lines, U+2028, backtick "
                 "name) x fills (ASCII, 2-, 3-, 4-byte, mixed) x optional same-line infix, plus 3-file trees with the error / the decoration in "
-                "either file and both insertion orders; a case = one reported error; each is paired with its ASCII twin.")
+                "either file and both insertion orders; a case = one reported error; each is paired with its ASCII twin. suite C: 47 erroneous ASCII cores "
+                "(every stage incl. lowering) in one-line and one-transform-per-line layout + 12 two-/three-file trees; every file x every insertion point "
+                "(start of file, after a top-level pipe, start of a line, start of the offending text, end of file) x 3 inline / 11 line / 4 trailing "
+                "ignored trivia, 7 (thorough 14) rejected characters, LF->CRLF, + seeded random compositions of 2-4 insertions; a case = one variant.")
     ctx.assumptions += ["which token range / byte span chumsky reports for a rejected input is not modelled; only the arithmetic applied to it",
                         "ariadne 0.5.1 line table semantics (Source::from, get_offset_line) as mirrored in Model/Text.lineCol; compared on every run"]
     if not (br.cargo_ok and br.drv_ok):
         return
     suite_offsets(ctx)
     suite_errors(ctx)
+    suite_trivia(ctx)
     ctx.exhaustive = False
 
 
